@@ -42,6 +42,21 @@ def quantAccept (s : S) (q : Rat) : Option (List Rat × Rat) :=   -- (acceptable
       some ([r8 s'.xs q], 32 * eps * (((s'.xs.length + 1 : Nat) : Rat) * gap + M))
     | some ws => some (wquantAccept (s'.xs.zip ws) (sum ws) q, 0)
 
+/-- from here on a float64 sum rounds to an infinity -/
+def overflowF : Rat := pow2 1024 - pow2 970
+
+/-- The code adds left to right in float64: when an exact prefix sum of the terms already lies beyond the
+float64 range, the infinity of that sign is what the formula delivers. -/
+def prefixOverflow (terms : List Rat) : Bool × Bool :=
+  let (_, up, dn) := terms.foldl (fun (acc : Rat × Bool × Bool) t =>
+    let a := acc.1 + t
+    (a, acc.2.1 || a ≥ overflowF, acc.2.2 || a ≤ -overflowF)) (0, false, false)
+  (up, dn)
+
+def infOK (g : V) (terms : List Rat) : Bool :=
+  let (up, dn) := prefixOverflow terms
+  (g == .pinf && up) || (g == .ninf && dn) || (g == .nan && up && dn)
+
 def checkOp (h : Heap) (op : List J) (out : J) : Heap × List (String × Bool × String) :=
   match op with
   | [.atom name, idJ] =>
@@ -74,7 +89,9 @@ def checkOp (h : Heap) (op : List J) (out : J) : Heap × List (String × Bool ×
           let mu := meanSpec s.xs
           let D := maxAbs (s.xs.map (· - mu))
           (h, [("model-var-eq-spec", varInc s.xs == v, s!"sample#{i}"),
-               ("variance", closeV g (.fin v) (16 * nr * eps * (M * D + D * D)) 0, s!"sample#{i} n={n} go={g.str} spec={ratStr v}")])
+               -- the sum of squared deviations itself beyond (or within a factor 16 of the end of) the float64
+               -- range: +Inf is what Welford's update delivers
+               ("variance", closeV g (.fin v) (16 * nr * eps * (M * D + D * D)) 0 || (g == .pinf && v * ((n - 1 : Nat) : Rat) ≥ pow2 1020), s!"sample#{i} n={n} go={g.str} spec={ratStr v}")])
       | "sd", some g, _ =>
         if n == 0 then one "stddev" (g == .nan) g.str
         else if n == 1 then one "stddev" (g == .fin 0) g.str
@@ -82,7 +99,7 @@ def checkOp (h : Heap) (op : List J) (out : J) : Heap × List (String × Bool ×
           let v := varSpec s.xs
           let mu := meanSpec s.xs
           let D := maxAbs (s.xs.map (· - mu))
-          one "stddev" (nonneg g && closeV (sqV g) (.fin v) (16 * nr * eps * (M * D + D * D)) (8 * eps)) s!"go={g.str} var={ratStr v}"
+          one "stddev" ((nonneg g && closeV (sqV g) (.fin v) (16 * nr * eps * (M * D + D * D)) (8 * eps)) || (g == .pinf && v * ((n - 1 : Nat) : Rat) ≥ pow2 1020)) s!"go={g.str} var={ratStr v}"
       | "geo", some g, _ =>
         if n == 0 then one "geomean" (g == .nan) g.str
         else if !weighted && s.xs.any (· ≤ 0) then one "geomean-nonpositive" (g == .nan) g.str
@@ -102,7 +119,7 @@ def checkOp (h : Heap) (op : List J) (out : J) : Heap × List (String × Bool ×
             s!"go={g.str} model=[{ratStr e.lo},{ratStr e.hi}]"
       | "sum", some g, _ =>
         let sa := sum ((s.xs.zip ws).map fun (x, w) => ratAbs (x * w))
-        one "sum" (closeV g (.fin s.total) (4 * nr * eps * sa) 0) s!"go={g.str} model={ratStr s.total}"
+        one "sum" (closeV g (.fin s.total) (4 * nr * eps * sa) 0 || infOK g ((s.xs.zip ws).map fun (x, w) => x * w)) s!"go={g.str} model={ratStr s.total}"
       | "weight", some g, _ =>
         one "weight" (closeV g (.fin s.weight) (4 * nr * eps * sum (ws.map ratAbs)) 0) s!"go={g.str} model={ratStr s.weight}"
       | "bounds", _, some [lo, hi] =>
@@ -194,7 +211,7 @@ def handleVec (ins outs : List J) : Verdict :=
   | [.atom "sum", xsJ], [gJ] =>
     match xsJ.rats?, gJ.flt? with
     | some xs, some g => verdictOf (if xs.length ≥ 2 then "nt sum" else "tr sum")
-        [("vec-sum", closeV g (.fin (sum xs)) (4 * ((xs.length + 1 : Nat) : Rat) * eps * sum (xs.map ratAbs)) 0, s!"go={g.str} model={ratStr (sum xs)}")]
+        [("vec-sum", closeV g (.fin (sum xs)) (4 * ((xs.length + 1 : Nat) : Rat) * eps * sum (xs.map ratAbs)) 0 || infOK g xs, s!"go={g.str} model={ratStr (sum xs)}")]
     | _, _ => .badOp "vec sum"
   | [.atom "linspace", loJ, hiJ, nJ], [gJ] =>
     match loJ.rat?, hiJ.rat?, nJ.nat?, gJ.rats? with
